@@ -65,6 +65,14 @@ def py_attr(name: str) -> str:
     return _PYLANG.filter_id(name)
 
 
+def py_module(dotted: str) -> str:
+    """Dotted module path with every NAMESPACE component passed through the generator's own path id filter (the last component --
+    the <Short>_<M>_<m> file stem -- is what the generator writes)."""
+    py_attr("x")
+    comps = dotted.split(".")
+    return ".".join([_PYLANG.filter_id(c, "path") for c in comps[:-1]] + comps[-1:])
+
+
 # ---------------------------------------------------------------------------------------------------------- type helpers
 def tkey(t) -> str:
     t = inner(t)
@@ -166,7 +174,7 @@ def schema_top(ct) -> dict:
     t = inner(ct)
     return {
         "k": base["k"],
-        "module": base["module"],
+        "module": py_module(base["module"]),
         "path": base["path"],
         "id": [t.full_name, t.version.major, t.version.minor],
         "fields": [[f.name, py_attr(f.name), schema_sub(f.data_type)] for f in t.fields_except_padding],
@@ -727,8 +735,8 @@ class Uni:
         for t in self.top:
             comps = t.full_name.split(".")
             cname = f"{comps[-1]}_{t.version.major}_{t.version.minor}"
-            tops.append({"module": ".".join(comps[:-1] + [cname]), "path": [cname], "id": [t.full_name, t.version.major, t.version.minor],
-                         "pkg": ".".join(comps[:-1]), "alias": f"{comps[-1]}_{t.version.major}", "key": tkey(t)})
+            tops.append({"module": py_module(".".join(comps[:-1] + [cname])), "path": [cname], "id": [t.full_name, t.version.major, t.version.minor],
+                         "pkg": py_module(".".join(comps[:-1] + ["x"]))[:-2], "alias": f"{comps[-1]}_{t.version.major}", "key": tkey(t)})
         top_index = {t["key"]: i for i, t in enumerate(tops)}
         ops2 = []
         for op in ops:
@@ -1138,7 +1146,7 @@ def judge_model(ctx: core.Ctx, U: Uni, op: dict, res: dict) -> typing.List[typin
         newest = max(same, key=lambda t: t.version.minor)
         comps = newest.full_name.split(".")
         cname = f"{comps[-1]}_{newest.version.major}_{newest.version.minor}"
-        if res.get("alias") != [".".join(comps[:-1] + [cname]), cname]:
+        if res.get("alias") != [py_module(".".join(comps[:-1] + [cname])), cname]:
             out.append(("model|alias-not-newest-minor", head + f"alias {ct.short_name}_{ct.version.major} is {res.get('alias')!r}, newest minor version is {cname}"))
     else:
         if "default_ctor" in res:
@@ -1548,6 +1556,23 @@ def directed_universe() -> dict:
         td("Command", [fld("go", u8), fld("stop", ref("Nothing")), fld("pause", ref("OnlyVoid")), fld("later", ref("NothingExt")), fld("speed", {"t": "int", "bits": 12, "cast": "saturated"})], union=True),
         td("Holder", [fld("first", ref("Command")), fld("nothing", ref("Nothing")), fld("many", {"t": "varr", "elem": ref("Command"), "cap": 4, "incl": True}), fld("pair", {"t": "farr", "elem": ref("Command"), "n": 2})], sealed=False),
         td("UnionOfArrays", [fld("a", {"t": "varr", "elem": u8, "cap": 3, "incl": True}), fld("b", {"t": "farr", "elem": {"t": "bool"}, "n": 5}), fld("c", {"t": "varr", "elem": ref("Nothing"), "cap": 2, "incl": True}), fld("d", ref("Holder"))], union=True),
+    ]
+    # namespaces that are reserved words of the target, also in the MIDDLE of a path (dshape.if.deep, dshape.class.def.x): types
+    # below them used as members, in arrays and as union options -- the support module finds their classes by name at run time
+    def tdn(ns, name, attrs, union=False):
+        return {"ns": ["dshape"] + ns, "name": name, "major": 1, "minor": 0, "port_id": None, "kind": "union" if union else "struct", "deprecated": False, "doc": [],
+                "body": {"union": union, "sealed": True, "extent_extra": 1, "extent_bits": 2048, "attrs": attrs}}
+
+    def refn(ns, name):
+        return {"t": "ref", "full": ".".join(["dshape"] + ns + [name]), "major": 1, "minor": 0}
+
+    types += [
+        tdn(["if"], "Leaf", [fld("x", u8)]),
+        tdn(["if", "deep"], "Item", [fld("y", u8), fld("l", refn(["if"], "Leaf"))]),
+        tdn(["class", "def", "x"], "Far", [fld("z", {"t": "int", "bits": 9, "cast": "saturated"})]),
+        tdn(["if", "deep"], "Choice", [fld("a", u8), fld("item", refn(["if", "deep"], "Item")), fld("far", refn(["class", "def", "x"], "Far")), fld("items", {"t": "varr", "elem": refn(["if", "deep"], "Item"), "cap": 2, "incl": True})], union=True),
+        tdn(["lambda"], "Box", [fld("items", {"t": "varr", "elem": refn(["if", "deep"], "Item"), "cap": 3, "incl": True}), fld("pick", refn(["if", "deep"], "Choice")), fld("picks", {"t": "farr", "elem": refn(["if", "deep"], "Choice"), "n": 2}),
+                                 fld("far", refn(["class", "def", "x"], "Far"))]),
     ]
     return {"roots": [{"name": "dshape", "types": types}]}
 
